@@ -1,6 +1,7 @@
 -------------------------------- MODULE Lifecycle --------------------------------
 (* C06: encoding and decoding are deterministic functions of their inputs -- across repeated calls and fresh or REUSED objects.
-   Objects: one high-level Encoder (options persist between calls), one reused low-level encoder object per geometry kind
+   Objects: one high-level Encoder (options persist between calls; every call sets every option it depends on again, nothing is reset),
+   one reused ExpertEncoder per geometry (same discipline), one reused low-level encoder object per geometry kind
    (MeshEdgebreakerEncoder / PointCloudSequentialEncoder: SetMesh / SetPointCloud + Encode), one EncoderBuffer that is only cleared
    when the history says so, one reused Decoder.  The codec itself is an UNINTERPRETED function: F(g, o) is the byte string that
    encoding geometry g with option set o must append, whatever happened before; option set "bad" must fail every time and leave
@@ -21,7 +22,8 @@ Clear == buf' = <<>> /\ hist' = Append(hist, [a |-> "clear", g |-> 0, o |-> 0])
 \* decoding the last stream of the buffer, followed by `trail` foreign bytes: result D(stream), exactly the stream consumed
 DecodeLast(trail) == /\ buf # <<>> /\ UNCHANGED buf
                      /\ hist' = Append(hist, [a |-> "dec", g |-> trail, o |-> 0])
-LNext == \/ \E g \in Geoms, o \in Opts : Encode("hl", g, o) \/ Encode("ll", g, o)
+\* "hl" = one Encoder object, "ll" = one reused low-level encoder per geometry kind, "ex" = one reused ExpertEncoder per geometry
+LNext == \/ \E g \in Geoms, o \in Opts : Encode("hl", g, o) \/ Encode("ll", g, o) \/ Encode("ex", g, o)
          \/ Clear
          \/ \E t \in {0, 7} : DecodeLast(t)
 =============================================================================
